@@ -9,3 +9,10 @@ TRUSTED = []
 
 def units(tier):
     return replayunits.units_for("C12") + sqlunits.units_for("C12") + handlers.units_for("C12")
+
+
+def extras(tier, seed):
+    from pyvc.bounded import run_bounded
+
+    # cross-check of C12/event-store/get_events_for_workflow on a real database file (bounded, not counted as proved)
+    return [run_bounded("C12", "c12_event_store.py", "C12/bounded/all-events-of-the-workflow-returned", tier, seed)]
